@@ -81,7 +81,8 @@ MdRouteStr(r) == CASE r.f = "MM-DD" -> Pad2(r.m) \o "-" \o Pad2(r.d)
                    [] r.f = "YYYY-MM-DD" -> YearStr(r.y) \o "-" \o Pad2(r.m) \o "-" \o Pad2(r.d)
 MdFromString(r) ==
   IF r.f = "YYYY-MM-DD"
-  THEN (IF r.m \in 1..12 /\ r.d >= 1 /\ r.d <= DIM(r.y, r.m) THEN Either(Ok(MDV(r.m, r.d, RefYear)), "range") ELSE ErrRange)
+  \* (a full date: its year is dropped - also when that date lies outside the limits of a PlainDate)
+  THEN (IF r.m \in 1..12 /\ r.d >= 1 /\ r.d <= DIM(r.y, r.m) THEN Ok(MDV(r.m, r.d, RefYear)) ELSE ErrRange)
   ELSE IF r.m \in 1..12 /\ r.d >= 1 /\ r.d <= DIM(RefYear, r.m) THEN Ok(MDV(r.m, r.d, RefYear)) ELSE ErrRange
 MdFromDate(dt) == IF IsPlainDate(dt) THEN Ok(MDV(dt.m, dt.d, RefYear)) ELSE ErrRange
 \* without a reference argument the hidden year is 1972; otherwise the explicit reference year
